@@ -642,7 +642,8 @@ def plan_C06(tier, seed):
             # a spike (10^6 or 10^8 times the lattice step) has just left the window when a checkpoint is taken: parts of a composite
             # that keep "the same" running sum in different association orders then hold different residues, and a serialized
             # form that stores only one of them restores a different indicator
-            spike_at = {max(0, cp - n - 3 - j): (100 * BIG if j == 0 else BIG) for j, cp in enumerate(cps)}
+            # (10^8 only for n <= 14: the transcription keeps SMA / WMA sums as plain integers, and 30 x 10^8 does not fit TLC's 32 bits)
+            spike_at = {max(0, cp - n - 3 - j): (100 * BIG if j == 0 and n <= 14 else BIG) for j, cp in enumerate(cps)}
             for pos, x in enumerate(xs):
                 if pos in spike_at:
                     x = spike_at[pos]
